@@ -399,6 +399,161 @@ theorem dupDst_false (ts : List TaskP) (h : dupDst ts = false) :
         rw [this] at hh; cases hh
     · exact ih hr t1 e1 t2 e2 hsome heq
 
+/-! ## no plan contains a sync task with several sources (since `--bundle` with `--sync` is rejected) -/
+
+theorem newTask_sync (root input : P) (output : Bytes) (s : Bool) (t : TaskP)
+    (h : newTask root input output s = some t) : t.sync = s := by
+  simp only [newTask] at h
+  split at h
+  · split at h
+    · cases h
+    · cases h; rfl
+  · cases h; rfl
+
+theorem walkTasks_sync (pm : Nat → Bytes → Bool) (inv : Inv) (mt output : Bytes) (root inp : P)
+    (hs : inv.sync = false) :
+    ∀ (rels : List (List Bytes)) (ts : List TaskP),
+      walkTasks pm inv mt output root inp rels = some ts → ∀ t ∈ ts, t.sync = false := by
+  intro rels
+  induction rels with
+  | nil => intro ts h t ht; simp [walkTasks] at h; subst h; simp at ht
+  | cons r rest ih =>
+    intro ts h t ht
+    simp only [walkTasks, hs, Bool.or_false] at h
+    split at h
+    · rename_i hv
+      split at h
+      · cases h
+      · rename_i t0 ht0
+        cases hrest : walkTasks pm inv mt output root inp rest with
+        | none => simp [hrest] at h
+        | some ts' =>
+          simp only [hrest, Option.map_some, Option.some.injEq] at h
+          subst h
+          rcases List.mem_cons.mp ht with e | e
+          · subst e
+            have := newTask_sync _ _ _ _ _ ht0
+            simpa [hv] using this
+          · exact ih ts' hrest t e
+    · exact ih ts h t ht
+
+theorem tasksOfInput_sync (pm : Nat → Bytes → Bool) (fs : Fs) (inv : Inv) (mt output i : Bytes)
+    (hs : inv.sync = false) (n : List TaskP) (h : tasksOfInput pm fs inv mt output i = some n) :
+    ∀ t ∈ n, t.sync = false := by
+  intro t ht
+  simp only [tasksOfInput, hs, Bool.or_false] at h
+  split at h
+  · cases h
+  · split at h
+    · rename_i hv
+      split at h
+      · cases h
+      · cases hn : newTask (dirRaw i) (cleanP i) output (!fileFilter pm inv (render (cleanP i))) with
+        | none => simp [hn] at h
+        | some t0 =>
+          simp only [hn, Option.map_some, Option.some.injEq] at h
+          subst h
+          simp only [List.mem_singleton] at ht
+          subst ht
+          have := newTask_sync _ _ _ _ _ hn
+          simpa [hv] using this
+    · cases h; simp at ht
+  · split at h
+    · cases h; simp at ht
+    · split at h
+      · cases h; simp at ht
+      · exact walkTasks_sync pm inv mt output _ _ hs _ n h t ht
+
+theorem allTasks_sync (pm : Nat → Bytes → Bool) (fs : Fs) (inv : Inv) (mt output : Bytes)
+    (hs : inv.sync = false) :
+    ∀ (ins : List Bytes) (ts : List TaskP), allTasks pm fs inv mt output ins = some ts → ∀ t ∈ ts, t.sync = false := by
+  intro ins
+  induction ins with
+  | nil => intro ts h t ht; simp [allTasks] at h; subst h; simp at ht
+  | cons i rest ih =>
+    intro ts h t ht
+    simp only [allTasks] at h
+    cases hn : tasksOfInput pm fs inv mt output i with
+    | none => simp [hn] at h
+    | some n =>
+      cases hr : allTasks pm fs inv mt output rest with
+      | none => simp [hn, hr] at h
+      | some m =>
+        simp only [hn, hr, Option.map_some, Option.some.injEq] at h
+        subst h
+        rcases List.mem_append.mp ht with e | e
+        · exact tasksOfInput_sync pm fs inv mt output i hs n hn t e
+        · exact ih m hr t e
+
+theorem finishPlan_syncSingle (inv : Inv) (od : Option Bytes) (mt : Bytes) (ts : List TaskP)
+    (hall : inv.sync = false → ∀ t ∈ ts, t.sync = false) (hbs : (inv.bundle && inv.sync) = false) :
+    ∀ t ∈ (finishPlan inv od mt ts).tasks, SyncSingle (toTask (finishPlan inv od mt ts) t).1 := by
+  intro t ht hsync
+  by_cases hb : (inv.bundle && decide (ts.length > 1)) = true
+  · have e : finishPlan inv od mt ts =
+        { tasks := ts.take 1, bundleSrcs := ts.map (·.src), outDir := od, mimetype := mt } := by
+      simp [finishPlan, hb]
+    rw [e] at ht hsync
+    have hbun : inv.bundle = true := by
+      simp only [Bool.and_eq_true] at hb; exact hb.1
+    have hs : inv.sync = false := by simpa [hbun] using hbs
+    have := hall hs t (List.mem_of_mem_take ht)
+    simp only [toTask] at hsync
+    rw [this] at hsync; cases hsync
+  · have e : finishPlan inv od mt ts = { tasks := ts, outDir := od, mimetype := mt } := by
+      simp [finishPlan, hb]
+    rw [e]
+    simp [toTask]
+
+theorem plan_syncSingle (pm : Nat → Bytes → Bool) (fs : Fs) (inv : Inv) (pl : Plan)
+    (h : plan pm fs inv = some pl) : ∀ t ∈ pl.tasks.map (toTask pl), SyncSingle t.1 := by
+  have hc : planCore pm fs inv = some pl := by
+    simp only [plan] at h
+    cases hc : planCore pm fs inv with
+    | none => simp [hc] at h
+    | some pl' =>
+      simp only [hc] at h
+      split at h
+      · cases h
+      · cases h; rfl
+  clear h
+  intro tk htk
+  obtain ⟨t, ht, rfl⟩ := List.mem_map.mp htk
+  intro hsync
+  simp only [planCore] at hc
+  cases hm : mimeOf inv with
+  | none => simp [hm] at hc
+  | some mt =>
+    simp only [hm] at hc
+    split at hc
+    · cases hc
+    · rename_i hrej
+      have hbs : (inv.bundle && inv.sync) = false := by
+        simp only [rejected, Bool.or_eq_true, not_or, Bool.not_eq_true] at hrej
+        exact hrej.1.1.1.2
+      simp only [planTasks] at hc
+      split at hc
+      · cases hc
+      · split at hc
+        · cases hc
+        · split at hc
+          · -- stdin
+            revert hc
+            generalize newTask (⟨false, []⟩ : P) ⟨false, []⟩ _ false = nt
+            intro hc
+            cases nt with
+            | none => simp at hc
+            | some t0 =>
+              simp only [Option.map_some, Option.some.injEq] at hc
+              subst hc
+              simp [toTask]
+          · split at hc
+            · cases hc
+            · rename_i ts hall
+              cases hc
+              exact finishPlan_syncSingle inv _ mt ts
+                (fun hs => allTasks_sync pm fs inv mt _ hs _ ts hall) hbs t ht hsync
+
 /-- the verdicts of the tasks, in order -/
 def taskOks (lib : Bytes → Bytes → Option Bytes) (cfg : Cfg) : List (Task × Bytes) → Fs → List Bool
   | [], _ => []
